@@ -9,19 +9,20 @@ from reactivex import operators as ops
 
 from vlib.core import FAIL, OK, Check
 from vlib.lab import Lab
+from vlib.values import FALSY_NAMES, NAMES, canon, val
 
 PROPERTY_ID = "C07"
 LEVEL = "exploration"
 RULE = (
     "Enumerated: input length n in 0..N (N=6 quick, 8 thorough), start/stop in {None} u [-(n+2), n+2], "
     "step in {None} u 1..n+1, both source[a:b:c] and ops.slice(a,b,c), source ending in completion or in an "
-    "error after k elements; integer form source[i] for i in [-(n+2), n+2]; plus generated large magnitudes. "
+    "error after k elements; integer form source[i] for i in [-(n+2), n+2]; plus generated large magnitudes; plus generated element VALUES (None, falsy, repeated, unhashable) under small slices, since slicing is positional. "
     "Oracle: list(range(n))[a:b:c] then completion; on error the emitted elements must be a prefix-consistent "
     "subsequence of the expected list followed by that error; the same sliced observable subscribed a second time must give the same result. Non-trivial: 0 < len(expected) < n or "
     "sign(start) != sign(stop). Distinct = distinct case JSON."
 )
 ASSUMPTIONS = [
-    "elements are the integers 0..n-1 emitted one per tick by a cold virtual-time source",
+    "elements are the integers 0..n-1 (enum, large) or arbitrary values incl. None / falsy / repeated / unhashable ones (values), emitted one per tick by a cold virtual-time source",
     "for erroring sources only the order/subset rule and the error pass-through are required",
 ]
 
@@ -30,10 +31,11 @@ def _run(case):
     n, a, b, c, form, err_at = case["n"], case["a"], case["b"], case["c"], case["form"], case["err"]
     lab = Lab()
     tl = []
+    names = case.get("vals") or [f"n:{i}" for i in range(n)]
     for i in range(n):
         if err_at is not None and i == err_at:
             break
-        tl.append([i + 1, "N", f"n:{i}"])
+        tl.append([i + 1, "N", names[i]])
     if err_at is None:
         tl.append([n + 1, "C", None])
     else:
@@ -58,7 +60,7 @@ def _run(case):
     lab.run()
     if lab.escaped is not None:
         raise lab.escaped
-    full = list(range(n))
+    full = [canon(val(x)) for x in names]
     if form == "index":
         try:
             expected = [full[a]]
@@ -68,17 +70,23 @@ def _run(case):
     else:
         expected = full[a:b:c]
         sigkind = "slice"
-    got = [v[1] for v in p.values()]
+    got = p.values()
     term = p.terminal()
     ok_g, msg = p.grammar_ok()
     if not ok_g:
         return FAIL(f"{sigkind}:grammar", msg)
-    got2 = [v[1] for v in p2.values()]
+    got2 = p2.values()
     term2 = p2.terminal()
-    if got2 != [v[1] for v in p.values()] or (term2 or [None, None])[1] != (p.terminal() or [None, None])[1]:
+    if got2 != p.values() or (term2 or [None, None])[1] != (p.terminal() or [None, None])[1]:
         return FAIL(f"{sigkind}:second-subscription-differs", f"case={case} first={[v[1] for v in p.values()]}/{p.terminal()} second={got2}/{term2}")
     nontrivial = (0 < len(expected) < n) or ((a is not None and b is not None) and ((a < 0) != (b < 0)))
     cls = []
+    if case.get("vals"):
+        cls.append("arbitrary-element-values")
+        if any(x in FALSY_NAMES for x in names):
+            cls.append("falsy-element")
+        if "none" in names and ["none"] in expected:
+            cls.append("None-element-inside-the-slice")
     if a is not None and a < 0 and (b is None or b >= 0):
         cls.append("neg-start/nonneg-stop")
     if a is not None and b is not None and a >= 0 and b < 0:
@@ -134,8 +142,34 @@ _gen = st.fixed_dictionaries(
 )
 
 
+def _vals_cases():
+    """Slicing is positional: the element VALUES must not matter (None, falsy, equal neighbours, unhashable)."""
+
+    @st.composite
+    def build(draw):
+        n = draw(st.integers(1, 8))
+        pool = draw(st.sampled_from([NAMES, FALSY_NAMES + ["i1", "sa"], ["none", "i1", "i0"]]))
+        vals = draw(st.lists(st.sampled_from(pool), min_size=n, max_size=n))
+        form = draw(st.sampled_from(["getitem", "op", "op", "index"]))
+        idx = st.integers(-(n + 2), n + 2)
+        if form == "index":
+            return {"n": n, "a": draw(idx), "b": None, "c": None, "form": form, "err": None, "vals": vals}
+        return {
+            "n": n,
+            "a": draw(st.one_of(st.none(), idx)),
+            "b": draw(st.one_of(st.none(), idx)),
+            "c": draw(st.one_of(st.none(), st.integers(1, n + 1))),
+            "form": form,
+            "err": None,
+            "vals": vals,
+        }
+
+    return build()
+
+
 def checks(tier):
     return [
+        Check("values", _run, strategy=_vals_cases(), examples={"quick": 3000, "thorough": 16 * 20000}, shards={"quick": 4, "thorough": 16}),
         Check("enum", _run, cases=_enum, shards={"quick": 8, "thorough": 16}, exhaustive=True),
         Check("large", _run, strategy=_gen, examples={"quick": 400, "thorough": 16 * 4000}, shards={"quick": 1, "thorough": 16}),
     ]
